@@ -1,5 +1,6 @@
 import asyncio
 import collections
+import contextlib
 import copy
 import logging
 import time
@@ -747,7 +748,10 @@ class GroupCoordinator(BaseCoordinator):
         if self._heartbeat_task is not None:
             if not self._heartbeat_task.done():
                 self._heartbeat_task.cancel()
-                await self._heartbeat_task
+                # The routine may be outside of its own CancelledError handler
+                # (leaving the group after max_poll_interval_ms)
+                with contextlib.suppress(asyncio.CancelledError):
+                    await self._heartbeat_task
             self._heartbeat_task = None
 
     async def _heartbeat_routine(self):
